@@ -445,6 +445,31 @@ def derived_types(rnd, tier):
     return progs
 
 
+def singleton_removals(rnd, tier):
+    """C01: variables that lose two or three length-1 dimensions in ONE
+    removeSingleton() call (adjacent or not, leading or trailing), with and
+    without a dimension named."""
+    def one(d, v):
+        return {'d': d, 's': {'k': 'slice', 'h': [True, True, False],
+                              'v': [v, v + 1, 0]}}
+    progs = []
+    for t, sets in (('T4', [['t'], ['t', 'y'], ['y', 'x'], ['t', 'x'],
+                            ['t', 'y', 'x']]),
+                    ('T7', [['t', 'y'], ['z', 'x'], ['t', 'z', 'y'],
+                            ['t', 'x']]),
+                    ('T1', [['t', 'y'], ['t', 'x'], ['y', 'x']])):
+        for ds in sets:
+            steps = [{'act': 'slice', 'src': 1, 'others': [], 'args': {
+                'sels': [one(d, 0) for d in ds], 'newdim': 'POINTS'}},
+                {'act': 'rmsingle', 'src': 2, 'others': [],
+                 'args': {'h': False, 'd': ds[0]}},
+                {'act': 'rmsingle', 'src': 2, 'others': [],
+                 'args': {'h': True, 'd': ds[-1]}},
+                {'act': 'copy', 'src': 3, 'others': [], 'args': {}}]
+            progs.append({'templates': [t], 'steps': steps})
+    return progs
+
+
 def broadcast_evals(rnd, tier):
     """C01: eval expressions whose operands have different dimensions (numpy
     broadcasts them; outside the domain the model gives values for): the call
@@ -602,6 +627,7 @@ def run(prop, tier, extra=None):
             ['T1', 'T2', 'T3', 'T4', 'T5', 'T7'])
     if prop == 'C01':
         progs += broadcast_evals(rnd, tier)
+        progs += singleton_removals(rnd, tier)
     if prop == 'C06':
         progs += mask_codes(rnd, tier)
         progs += mixed_arith(rnd, tier)
